@@ -374,6 +374,10 @@ type cl struct {
 	mode    uint64
 	cur     *[2]uint64
 	incs    []*inc // one per successful Start, oldest first
+	// how the application reaches the Modify API: odd-numbered clients took one handle (fc.Modify()) when the
+	// client was created and use it for every AddEntry/ReplaceEntry/DeleteEntry, whatever was set on the client or
+	// through other handles since; the others ask for a fresh handle each time
+	add, rep, del func(t testing.TB, es ...fluent.GRIBIEntry)
 }
 
 // inc is the client.Client in place (c.started only).
@@ -416,6 +420,16 @@ func (e *exec) client(name int) *cl {
 		return c
 	}
 	c := &cl{name: name, fc: fluent.NewClient()}
+	if name%2 == 1 {
+		h := c.fc.Modify()
+		c.add = func(t testing.TB, es ...fluent.GRIBIEntry) { h.AddEntry(t, es...) }
+		c.rep = func(t testing.TB, es ...fluent.GRIBIEntry) { h.ReplaceEntry(t, es...) }
+		c.del = func(t testing.TB, es ...fluent.GRIBIEntry) { h.DeleteEntry(t, es...) }
+	} else {
+		c.add = func(t testing.TB, es ...fluent.GRIBIEntry) { c.fc.Modify().AddEntry(t, es...) }
+		c.rep = func(t testing.TB, es ...fluent.GRIBIEntry) { c.fc.Modify().ReplaceEntry(t, es...) }
+		c.del = func(t testing.TB, es ...fluent.GRIBIEntry) { c.fc.Modify().DeleteEntry(t, es...) }
+	}
 	e.clients[name] = c
 	e.order = append(e.order, name)
 	return c
@@ -713,13 +727,13 @@ func (e *exec) clientStep(i int, s Step) {
 		switch s.M {
 		case "AddEntry":
 			w.op = spb.AFTOperation_ADD
-			f, odd = capture(func(t testing.TB) { c.fc.Modify().AddEntry(t, entries...) })
+			f, odd = capture(func(t testing.TB) { c.add(t, entries...) })
 		case "ReplaceEntry":
 			w.op = spb.AFTOperation_REPLACE
-			f, odd = capture(func(t testing.TB) { c.fc.Modify().ReplaceEntry(t, entries...) })
+			f, odd = capture(func(t testing.TB) { c.rep(t, entries...) })
 		case "DeleteEntry":
 			w.op = spb.AFTOperation_DELETE
-			f, odd = capture(func(t testing.TB) { c.fc.Modify().DeleteEntry(t, entries...) })
+			f, odd = capture(func(t testing.TB) { c.del(t, entries...) })
 		}
 		if odd != "" || f > 0 {
 			e.problem("step %d: %s: fatal=%d %s", i, s.M, f, odd)
